@@ -111,6 +111,8 @@ def diff_fields(exp, got, path=""):
 def diff_kind(ek, gk, path):
     if ek == gk:
         return
+    if ek == ["map", "any"] and isinstance(gk, list) and gk and gk[0] == "obj" and not gk[1]:
+        return  # a free-form object is emitted as a field-less wrapper class around a dict: the same structural kind
     if kind_name(ek) != kind_name(gk):
         yield ("kind-mismatch", f"{kind_name(ek)}->{kind_name(gk)}", path)
         return
